@@ -5,6 +5,7 @@ import Adsb.TrackerF
 import Adsb.Display
 import Adsb.Ui
 import Adsb.App
+import Adsb.ReaderSched
 /-! Line-protocol driver: one operation per input line, one canonical line of output. -/
 open Adsb
 
@@ -50,6 +51,29 @@ def opCpr (A B : Buf) : String :=
     | none => "POS none"
   | _, _ => "POS n/a"
 
+
+/-! ### `RC`: the `ReaderCrc` model on an explicit call sequence over a scheduled reader standing after a prefix -/
+def bytesHex (bs : List UInt8) : String := String.join (bs.map (fun b => hexStr b.toNat 2))
+
+def parseSched (s : String) : Option (List Sch) :=
+  if s == "-" then some [] else
+  (s.splitOn ",").mapM (fun t => if t == "I" then some Sch.intr else match t.toNat? with
+    | some k => if k > 0 then some (Sch.chunk (k - 1)) else none
+    | none => none)
+
+def parseCalls (s : String) : Option (List Call) :=
+  if s == "-" then some [] else
+  (s.splitOn ",").mapM (fun t =>
+    match t.toList with
+    | 'r' :: rest => (String.ofList rest).toNat?.map Call.read
+    | 's' :: rest => (String.ofList rest).toNat?.map Call.seekBack
+    | _ => none)
+
+def opRC (pre frame : List UInt8) (sched : List Sch) (calls : List Call) : String :=
+  let rc : RC := { inner := { data := pre ++ frame, pos := pre.length, sched := sched }, cache := [], pos := 0 }
+  match concRun rc calls with
+  | some (outs, rc') => s!"RCT outs={String.intercalate ";" (outs.map bytesHex)} cache={bytesHex rc'.cache} pos={rc'.pos}"
+  | none => "RCT FAIL"
 
 /-! ### `U`: radar's handlers on a scripted history.  Tokens: `rows:n:bits` (table size and which rows have a position),
 `btn:none` | `btn:y0:h0:y1:y2`, `left:n`, `draw` (one draw = selection clamp), `k:…` keys, `m:…` mouse, `rs` resize -/
@@ -137,6 +161,19 @@ def runOp (line : String) : String :=
   | ["F", h] => match parseBuf h with
       | some B => showRes Frame.show (decode B)
       | none => "BADOP"
+  | ["RC", pre, h, sched, calls] =>
+      let preB := if pre == "-" then some [] else parseHexBytes pre.toList
+      match preB, parseHexBytes h.toList, parseSched sched, parseCalls calls with
+      | some p, some f, some sc, some cs => opRC p f sc cs
+      | _, _, _, _ => "BADOP"
+  | ["R", h, sched, off] =>
+      -- by `C19.reader_refines_cursor_at_offset` neither the schedule nor the reader's starting offset matters
+      let okTok (t : String) : Bool := t == "I" || (match t.toNat? with | some k => k > 0 | none => false)
+      if off.toNat?.isSome && (sched == "-" || (sched.splitOn ",").all okTok) then
+        match parseBuf h with
+        | some B => showRes Frame.show (decode B)
+        | none => "BADOP"
+      else "BADOP"
   | ["R", h, sched] =>
       -- by `C19.reader_refines_cursor` the result does not depend on the schedule; only its syntax is checked here
       let okTok (t : String) : Bool := t == "I" || (match t.toNat? with | some k => k > 0 | none => false)
